@@ -792,6 +792,10 @@ impl<const M: usize> Exec<M> {
         }
         if align != 0 && ptr % align != 0 {
             self.fail("C04", "misaligned-requested", format!("ptr={} align={}", hex(ptr), align));
+            if raw {
+                // Allocator contract: the returned block fits the layout that was asked for
+                self.fail("C12", "block-does-not-fit-layout", format!("ptr={} align={} size={}", hex(ptr), align, size));
+            }
         }
         if ptr % M != 0 {
             self.fail("C04", "misaligned-min-align", format!("ptr={} M={}", hex(ptr), M));
@@ -1035,7 +1039,9 @@ impl<const M: usize> Exec<M> {
                 self.held.clear();
                 let (r, evs) = galloc::record(|| {
                     catch_unwind(AssertUnwindSafe(|| {
-                        if *f {
+                        if let Some(r) = ctor_plain::<M>(*cap, *f) {
+                            r
+                        } else if *f {
                             Bump::<M>::try_with_min_align_and_capacity(*cap).map_err(|_| ())
                         } else if *cap == 0 {
                             Ok(Bump::<M>::with_min_align())
@@ -1782,6 +1788,32 @@ trait Pipe: Sized {
     }
 }
 impl<T> Pipe for T {}
+
+/// For `MIN_ALIGN = 1` and even capacities the arena is built through the plain constructors
+/// (`new`, `try_new`, `with_capacity`, `try_with_capacity`), which must be the same thing.
+fn ctor_plain<const M: usize>(cap: usize, f: bool) -> Option<Result<Bump<M>, ()>> {
+    if M != 1 || cap % 2 != 0 {
+        return None;
+    }
+    let b1: Result<Bump<1>, ()> = if f {
+        if cap == 0 { Bump::try_new().map_err(|_| ()) } else { Bump::try_with_capacity(cap).map_err(|_| ()) }
+    } else if cap == 0 {
+        Ok(if cap_is_default_variant() { Bump::default() } else { Bump::new() })
+    } else {
+        Ok(Bump::with_capacity(cap))
+    };
+    Some(b1.map(|b| {
+        let md = std::mem::ManuallyDrop::new(b);
+        // M == 1 here, so this is the identity on the type
+        unsafe { std::mem::transmute_copy::<std::mem::ManuallyDrop<Bump<1>>, Bump<M>>(&md) }
+    }))
+}
+
+fn cap_is_default_variant() -> bool {
+    use std::sync::atomic::{AtomicUsize, Ordering};
+    static N: AtomicUsize = AtomicUsize::new(0);
+    N.fetch_add(1, Ordering::Relaxed) % 2 == 1
+}
 
 /// Run a whole plan (given ops, or generated on the fly when `gen` is Some).
 pub fn run_plan<const M: usize>(plan: &mut Plan, gen: Option<(Profile, usize)>, static_addr: usize, footer_overhead: usize) -> Out {
